@@ -165,6 +165,10 @@ class GConst:
 
 
 HOSTILE = ['"', "'", "\\", "\t", "{", "}", "$", "`", "é", "ß", "→", "\U0001F600", "<", "&", ">", "*/", "%s", "\x7f"]
+#: for *values* only (constants, enumeration literals): characters that line-splitting and
+#: escaping helpers treat specially -- NUL before an octal digit, the separators that
+#: ``str.splitlines`` breaks on, carriage return
+HOSTILE_VALUES = HOSTILE + ["\x007", "\x00", "\x1c", "\x1d", "\x1e", "\x85", "\u2028", "\u2029", "\r", "\x0b", "\x0c"]
 
 
 class Model:
@@ -265,7 +269,9 @@ class Generator:
                     continue
                 value = lit.replace("_", "-").upper() if self.rng.random() < 0.5 else lit
                 if self.p.hostile_strings and self.rng.random() < 0.4:
-                    value += self.rng.choice(HOSTILE)
+                    value += self.rng.choice(HOSTILE_VALUES)
+                    if self.rng.random() < 0.5:
+                        value += self.rng.choice(["b", "1", " "])
                 if value in seen_values:
                     continue
                 seen_names.add(lit.lower())
@@ -414,7 +420,7 @@ class Generator:
             elif choice < 0.8:
                 pool = ["red", "green", "blue", "x", "", "A b", "ok", "bad"]
                 if self.p.hostile_strings:
-                    pool += HOSTILE
+                    pool += HOSTILE_VALUES + ["a\x1cb", "a\u2028b", "\x0012"]
                 k = rng.randint(1, 4)
                 chosen = rng.sample(pool, k)
                 values = [self.str_literal(v) for v in chosen]
@@ -452,7 +458,7 @@ class Generator:
             name = self.fresh("", True)
             prim = rng.choice(["str", "int", "float", "bool"])
             if prim == "str":
-                value = rng.choice(["some text", "", "x", "line\nbreak", "tab\t"] + (HOSTILE if self.p.hostile_strings else []))
+                value = rng.choice(["some text", "", "x", "line\nbreak", "tab\t"] + (HOSTILE_VALUES if self.p.hostile_strings else []))
                 vsrc = repr(value)
             elif prim == "int":
                 value = rng.choice([0, 1, 42, 2**31 - 1, 2**53])
